@@ -17,6 +17,7 @@ module AttributeError / arity TypeError escaping a public function is a witness 
 known_findings.json.
 """
 import copy
+import json as _json
 import random
 
 import numpy as np
@@ -29,6 +30,9 @@ from .core import fhex, unhex, sha
 
 def _draw_n(rng, tier):
     r = rng.random()
+    if r < (0.01 if tier == 'quick' else 0.03):
+        # long traces at and around block sizes (vectorised / chunked code paths switch there)
+        return rng.choice([255, 256, 257, 511, 512, 513, 1023, 1024, 1025, 1100] + ([2047, 2048, 2049] if tier == 'thorough' else []))
     if r < 0.06:
         return rng.randint(3, 7)
     if r < 0.55:
@@ -78,7 +82,7 @@ def gen_plan(rng, tier='quick', traces=None):
             fam = 'sibling-of-%d:%s' % (sib, mode)
         last_n = len(pts)
         lay = rng.choice(layouts_enabled)
-        if lay == 'int64' and not worlds.integral(pts):
+        if lay.startswith('int64') and not worlds.integral(pts):
             # integer-valued version of the curve (cache sizes / counts): x -> distinct integers, y -> rounded
             sy = rng.choice([1.0, 10.0, 100.0, 1000.0])
             top = max(abs(p[1]) for p in pts) or 1.0
@@ -94,7 +98,7 @@ def gen_plan(rng, tier='quick', traces=None):
                 lastx = xi
             pts = q
             if not worlds.integral(pts):
-                lay = rng.choice([l for l in layouts_enabled if l != 'int64'] or ['C'])
+                lay = rng.choice([l for l in layouts_enabled if not l.startswith('int64')] or ['C'])
         pool.append({'kind': 'curve', 'family': fam, 'points': [[fhex(x), fhex(y)] for x, y in pts],
                      'layout': lay, 'salt': rng.randrange(1 << 30), 'sibling': sib, 'readonly': False})
     for ci in range(ncurves):
@@ -117,10 +121,14 @@ def gen_plan(rng, tier='quick', traces=None):
         if n >= 5 and rng.random() < 0.7:
             k = rng.randint(1, min(5, n - 2))
             idx = sorted(rng.sample(range(1, n - 1), k))
-            pts = [[unhex(pool[ci]['points'][i][0]) + rng.choice([0.0, 0.0, 0.5, -0.25]),
+            whole = str(pool[ci].get('layout', '')).startswith('int64')
+            pts = [[unhex(pool[ci]['points'][i][0]) + (rng.choice([0.0, 0.0, 1.0, -1.0]) if whole else rng.choice([0.0, 0.0, 0.5, -0.25])),
                     unhex(pool[ci]['points'][i][1])] for i in idx]
+            elay = rng.choice(['C', 'F', 'view'])
+            if whole and rng.random() < 0.6 and worlds.integral(pts):
+                elay = rng.choice(['int64', 'int64+F', 'int64+view'])      # expected knee points as integers too
             pool.append({'kind': 'expected', 'curve': ci, 'points': [[fhex(x), fhex(y)] for x, y in pts],
-                         'layout': rng.choice(['C', 'F', 'view']), 'salt': rng.randrange(1 << 30), 'readonly': False})
+                         'layout': elay, 'salt': rng.randrange(1 << 30), 'readonly': False})
     if rng.random() < 0.6:
         vals = rng.sample([0.5, 0.1, 0.05, 0.01, 0.001, 0.0001], rng.randint(2, 4))
         pool.append({'kind': 'tlist', 'values': [fhex(v) for v in vals], 'layout': 'list'})
@@ -241,7 +249,11 @@ def _resolve(spec, objs, results):
         if 'fn' in spec:
             return _pkg_attr(spec['fn'])
         if 'col' in spec:
-            return _resolve(spec['col'], objs, results)[:, spec['c']]
+            col = _resolve(spec['col'], objs, results)[:, spec['c']]
+            if spec.get('int_in_sim') and _WORLD == 'sim' and col.dtype.kind == 'f' and len(col) \
+                    and np.all(col == np.round(col)) and np.all(np.abs(col) < 2 ** 20):
+                col = col.astype(np.int64)     # e.g. integer cache sizes on x, float miss ratios on y
+            return col
         if 'take' in spec:
             a = _resolve(spec['take'][0], objs, results)
             i = _resolve(spec['take'][1], objs, results)
@@ -603,7 +615,11 @@ _SERVER = None
 
 
 def _type_only(plan):
-    return any(o.get('layout') == 'int64' for o in plan['pool'])
+    """Does any argument reach the simulated world as integers while the isolated world gets floats?  Then result
+    dtype kinds and exception messages are not comparable between the worlds (values still are)."""
+    if any(str(o.get('layout', '')).startswith('int64') for o in plan['pool']):
+        return True
+    return '"int_in_sim": true' in _json.dumps(plan['clients'])
 
 
 def run_sim(plan, stats):
@@ -940,6 +956,7 @@ WARM = {
 
 class Adapter(object):
     NAME = 'C20'
+    CHUNK = 6          # runs per dispatched chunk: short, so that the soft deadline is honoured closely
     traces = None
     RULE = ('Each evaluation is one simulated run: 1-4 caller clients (pipeline / z-method / primitives programs over the '
             'public API) sharing a pool of argument objects, executed (a) each alone in a forked pristine process on fresh '
@@ -993,7 +1010,12 @@ class Adapter(object):
                 if comp is None:
                     continue
                 try:
-                    comp(*args)
+                    # missing trailing arguments are passed the way the C dispatcher folds them: as OmittedArg(default)
+                    import inspect
+                    from numba.core.dispatcher import OmittedArg
+                    params = list(inspect.signature(fn.py_func).parameters.values())
+                    full = list(args) + [OmittedArg(p_.default) for p_ in params[len(args):]]
+                    comp(*full)
                 except Exception:
                     pass
         import gc
